@@ -251,6 +251,21 @@ impl Machine {
     }
 
     /// `IoLoop::handle_steady_event` on a fabricated event.
+    /// Like `event`, with the unix hang-up readiness set as well (what epoll reports for a socket
+    /// whose peer has shut down or reset it, possibly together with unread data).
+    #[cfg(unix)]
+    pub fn event_hup(&mut self, token: usize, readable: bool, writable: bool) -> crate::Result<()> {
+        let mut ready = Ready::from(mio::unix::UnixReady::hup());
+        if readable {
+            ready |= Ready::readable();
+        }
+        if writable {
+            ready |= Ready::writable();
+        }
+        let (io, state) = self.core.as_mut().expect("I/O loop is gone");
+        io.handle_steady_event(&mut self.stream, state, Event::new(ready, Token(token)))
+    }
+
     pub fn event(&mut self, token: usize, readable: bool, writable: bool) -> crate::Result<()> {
         let mut ready = Ready::empty();
         if readable {
